@@ -18,7 +18,8 @@
 // that exist now and did not exist at g1. If every such goroutine is runnable
 // or running the machine is starved and the case is inconclusive.
 //
-// Preconditions taken from the statement and from real callers:
+// A case (60 executions) is cut off after 45 s of worker CPU time or idleness
+// (inconclusive). Preconditions taken from the statement and from real callers:
 //   - Programs terminate, and every goroutine a program starts finishes on
 //     its own: it signals main (WaitGroup / channel) as its last Ego action or
 //     fails after signalling. Programs that leave their own goroutine blocked
